@@ -205,3 +205,9 @@ func vh_C16_block3_Q() {
 func vh_C16_freetext_Q() {
 	vhC16(2, vhBounds{freeAlphabet: "a /", freeMax: 4, nameMax: 1, valueAlphabet: "a", valueMax: 1, descAlphabet: "a", descMax: 1, jsons: 1})
 }
+
+// C14: annotation parsing and description assembly never panic (assertions off, only crashes count)
+func vh_C14_annotations_Q() {
+	symxAssertionsOff()
+	vhC16(2, vhBounds{freeAlphabet: "a /", freeMax: 2, nameMax: 1, valueAlphabet: "a", valueMax: 1, descAlphabet: "a", descMax: 1, jsons: 1})
+}
